@@ -91,6 +91,12 @@ M=[
             }
         }
         retval.first.insert(std::end(retval.first),   std::begin(lhs.first) + i, std::end(lhs.first));"""),
+ ('R11 IndexMapIterator::operator[](diff) const (const overload only) adds diff to the id instead of moving the cursor', 'include/AIToolbox/Utils/IndexMap.hpp',
+  """            const auto & operator[](difference_type diff) const {
+                return (*items_)[*(currentId_ + diff)];""","""            const auto & operator[](difference_type diff) const {
+                return (*items_)[*currentId_ + diff];"""),
+ ('R12 IndexSkipMapIterator::operator*() const (const overload only) reads the skip cursor', 'include/AIToolbox/Utils/IndexMap.hpp',
+  """            const auto& operator*() const { return items_[toContainerId()]; }""","""            const auto& operator*() const { return items_[currentSkipId_]; }"""),
 ]
 unit = '--unit' in sys.argv
 sel = [a for a in sys.argv[1:] if a != '--unit']
